@@ -171,10 +171,18 @@ def run(ctx):
                       NA.find_method("compute_subtype"))
     for arr, want in (([1.5, 2.0], "f"), ([1, 2, 300], "S"), ([-1, 5], "c"),
                       ([1, 1.5], "!ValueError"), ([1, "a"], "!ValueError"),
-                      ([0, 255], "C"), ([0, 256], "S"), ([-129, 0], "s")):
+                      ([0, 255], "C"), ([0, 256], "S"), ([-129, 0], "s"),
+                      ([], "?")):
         ctx.instance(R)
         out = eval_function(repo, f_cs, [arr], hooks=hooks)
-        if want.startswith("!"):
+        if want == "?":
+            # an empty array (the text `xx:B:C` decodes to one): any subtype
+            # or a library error, never a foreign exception (min() / max()
+            # of an empty sequence)
+            ok = out[0] == "return" or (out[0] == "raise" and
+                                        is_library_error(repo, f_cs.module,
+                                                         out[1]))
+        elif want.startswith("!"):
             ok = out[0] == "raise" and str(out[1]).endswith(want[1:])
         else:
             ok = out[0] == "return" and out[1] == want
